@@ -78,14 +78,9 @@ def handleProg : Handler := fun input impl =>
             | some (name, dtok) => some s!"[C07] inside: {c} `{msg}` for a use rooted at token {root.getD 0}, where `{name}` denotes the script's own variable declared at token {dtok}"
             | none => none
           | _ => none
-        -- see `Driver.Scope.untilClosureSpans`: inside an `until` condition with a function literal the machine's gate may see a
-        -- global (assigned inside that literal) earlier or later than the implementation does; such programs are tagged, their
-        -- differences are not counted
-        let untilCorner := md != id && !(Driver.Scope.untilClosureSpans chunk.block).isEmpty
         let tags := (mdiags.map fun g => kindTag g.kind).eraseDups ++
           (if mdiags.isEmpty then ["silent"] else []) ++
           (if spec.occs.any (fun o => o.binding.isSome && (lib.globals.any fun (k, _) => (k.splitOn ".").head? == some o.name)) then ["rebound-library-name"] else []) ++
-          (if untilCorner then ["until-closure-order"] else []) ++
           (if coherent then [] else ["first-ref-incoherent"]) ++ (if distinct then [] else ["reference-tokens-not-distinct"])
         -- at a library call site the model's style / count problems are exactly the documented ones (C05_prog_style,
         -- C05_prog_count), and at a read or assignment target its access problems are those of the documented lookup
@@ -108,8 +103,8 @@ def handleProg : Handler := fun input impl =>
               some s!"[C06] unexpected: `{msg}` at {sp} although the documented lookup and writability rules allow the access"
             else none
           | _ => none
-        { agree := (md == id || untilCorner) && coherent && distinct,
-          spec := (if untilCorner then [] else inside ++ missing ++ unexpected).head?.map fun first => " ;; ".intercalate (first :: ((inside ++ missing ++ unexpected).drop 1).take 3),
+        { agree := md == id && coherent && distinct,
+          spec := (inside ++ missing ++ unexpected).head?.map fun first => " ;; ".intercalate (first :: ((inside ++ missing ++ unexpected).drop 1).take 3),
           model := if md == id then (if !coherent then "hypothesis firstRefCoherent of C07_std_inside does not hold on this program" else if !distinct then "hypothesis `reference tokens pairwise distinct` of C07_std_inside_tree does not hold on this program" else "")
                    else s!"model {md.filter fun x => !id.contains x} impl {id.filter fun x => !md.contains x}",
           tags }
